@@ -61,10 +61,11 @@ def section(tube=None):
     def _s(draw):
         tb = draw(st.booleans()) if tube is None else bool(tube)
         return dict(
-            eA=draw(S.fl(-4.0, -1.0, -2.5)),
-            eIy=draw(S.fl(-8.0, -4.5, -6.0)),
-            eIz=draw(S.fl(-8.0, -4.5, -6.0)),
-            eJ=draw(S.fl(-8.0, -4.5, -6.0)),
+            # from wind-tunnel-model / small-UAV spars (2 mm tube: A ~ 5e-6 m^2, I ~ 7e-12 m^4) to transport wings
+            eA=draw(S.fl(-6.5, -1.0, -2.5)),
+            eIy=draw(S.fl(-12.5, -4.5, -6.0)),
+            eIz=draw(S.fl(-12.5, -4.5, -6.0)),
+            eJ=draw(S.fl(-12.5, -4.5, -6.0)),
             spread=draw(S.fl(0.0, 1.0, 0.0)),
             tube=tb,
             sec_seed=draw(st.integers(0, 10 ** 6)),
